@@ -16,7 +16,10 @@ Example ex_canonical : canonical_records ex_ks true ex_rs.
 Proof.
   split.
   - cbn. unfold two64. repeat split; lia.
-  - unfold ex_rs, record_ok. repeat constructor; cbn; unfold two64, max_record_size; try lia; auto.
+  - unfold ex_rs. repeat (apply Forall_cons || apply Forall_nil);
+      unfold record_ok; cbn; unfold two64, max_record_size;
+      (split; [lia|split; [lia|]]); auto.
+    split; [lia|exact I].
 Qed.
 
 (* the theorem applies to it and the model really decodes it *)
